@@ -346,14 +346,20 @@ func ZZ_C20_tableget() {
 	i := vpChoose(len(t.K))
 	want := zzCopyB(t.V[i])
 	k := zzCopyB(t.K[i])
-	v1, e1 := r.Get(k, nil)
+	// read options vary per call: a read that does not fill the cache is still
+	// served from it when the block is already resident
+	ros := []*opt.ReadOptions{nil, {DontFillCache: true}}
+	if vpChoose(2) == 1 {
+		_, _ = r.Get(k, ros[vpChoose(2)]) // a previous read may have made the block resident
+	}
+	v1, e1 := r.Get(k, ros[vpChoose(2)])
 	vpAssert(e1 == nil && len(v1) == len(want) && vpEqBytes(v1, want), "first-get")
 	vpAssert(vpEqBytes(k, t.K[i]), "get-arg-unmodified")
 	vpHavoc(v1)
 	vpHavoc(k)
-	v2, e2 := r.Get(t.K[i], nil)
+	v2, e2 := r.Get(t.K[i], ros[vpChoose(2)])
 	vpAssert(e2 == nil && len(v2) == len(want) && vpEqBytes(v2, want), "returned-value-is-a-private-copy")
-	rk, rv, e3 := r.Find(t.K[i], false, nil)
+	rk, rv, e3 := r.Find(t.K[i], false, ros[vpChoose(2)])
 	vpAssert(e3 == nil, "find-ok")
 	vpHavoc(rk)
 	vpHavoc(rv)
